@@ -316,6 +316,7 @@ def check(run):
     store_family(run, drv, rng, date, quick)
     fresh_process_family(run, rows, defaults, rng, 6 if quick else 60)
     persistent_dict_family(run)
+    user_subcommand_family(run)
     run.counts['subcommands_seen'] = len(subs_seen)
     run.counts['shapes'] = shapes
     if drv is not None:
@@ -396,6 +397,61 @@ def fresh_process_family(run, rows, defaults, rng, n):
                 if got.get(dest) != [type(exp).__name__, repr(exp)]:
                     run.fail('fresh-precedence:%s' % dest, 'a new interpreter running `jug %s`: option %s is %s %s, expected %s %r from %s' % (' '.join(args), dest, got.get(dest, ['?', '?'])[0], got.get(dest, ['?', '?'])[1],
                                                                                                                                      type(exp).__name__, exp, src), rp)
+                    break
+        finally:
+            core.rm_rf(home)
+
+
+USERCMD = '''
+from jug.subcommands import SubCommand
+
+
+class FancyReport(SubCommand):
+    "a subcommand of the user (the documented extension point)"
+    name = "fancy-report"
+
+    def run(self, *args, **kwargs):
+        return 0
+
+    def parse(self, parser):
+        parser.add_argument("--to-file", dest="fancy_report_to_file", action="store")
+        parser.add_argument("--max-rows", dest="fancy_report_max_rows", action="store", type=int)
+
+    def parse_defaults(self):
+        return {"fancy_report_to_file": "out.txt", "fancy_report_max_rows": 10}
+
+
+fancy_report = FancyReport()
+'''
+
+
+def user_subcommand_family(run):
+    """a subcommand defined by the user (~/.config/jug/jug_user_commands.py) whose name has a hyphen, configured in the section of that name: its options follow the same chain -
+    command line, then the configuration file converted to the type of the default, then the default"""
+    import subprocess
+    for given, ini, want in (([], '[fancy-report]\nto-file = report.csv\nmax-rows = 25\n', {'fancy_report_to_file': ['str', "'report.csv'"], 'fancy_report_max_rows': ['int', '25']}),
+                             (['--max-rows', '7'], '[fancy-report]\nto-file = report.csv\nmax-rows = 25\n', {'fancy_report_to_file': ['str', "'report.csv'"], 'fancy_report_max_rows': ['int', '7']}),
+                             ([], '[main]\nwill-cite = 1\n', {'fancy_report_to_file': ['str', "'out.txt'"], 'fancy_report_max_rows': ['int', '10']})):
+        home = core.scratch_dir('jugverif-home-')
+        try:
+            os.makedirs(os.path.join(home, '.config', 'jug'))
+            open(os.path.join(home, '.config', 'jug', 'jug_user_commands.py'), 'w').write(USERCMD)
+            open(os.path.join(home, '.config', 'jug', 'jugrc'), 'w').write(ini)
+            args = ['fancy-report'] + given + ['jugfile.py']
+            env = dict(os.environ, HOME=home, PYTHONPATH=core.REPO)
+            p = subprocess.run([sys.executable, '-c', FRESH, json.dumps(args), json.dumps(sorted(want))], cwd=home, env=env, stdout=subprocess.PIPE, stderr=subprocess.PIPE, text=True, timeout=120)
+            rp = {'kind': 'user-subcommand', 'args': args, 'jugrc': ini}
+            run.case(('user-subcommand', tuple(given), ini), nontrivial=True)
+            run.count('user_subcommand_parses')
+            line = [ln for ln in p.stdout.splitlines() if ln.startswith('RESULT ')]
+            if p.returncode != 0 or not line:
+                run.fail('parse-rejects-wellformed', 'a user-defined subcommand `fancy-report`: parse(%r) fails: %s' % (args, (p.stderr or p.stdout)[-300:]), rp)
+                continue
+            got = json.loads(line[-1][7:])
+            for k_, v_ in want.items():
+                if got.get(k_) != v_:
+                    run.fail('user-subcommand-precedence:%s' % k_, 'a user-defined subcommand `fancy-report` with jugrc %r and command line %r: option %s is %s %s, expected %s %s'
+                             % (ini, given, k_, got.get(k_, ['?', '?'])[0], got.get(k_, ['?', '?'])[1], v_[0], v_[1]), rp)
                     break
         finally:
             core.rm_rf(home)
